@@ -49,7 +49,7 @@ func (r *result) put(obs J) {
 		obs["msg"] = r.Msg
 		obs["srcerr"] = r.IsSrcErr
 	}
-	if r.Outcome == "unstable" || r.Outcome == "repdiff" || r.Outcome == "snapdiff" || r.Outcome == "addrleak" {
+	if r.Outcome == "unstable" || r.Outcome == "repdiff" || r.Outcome == "snapdiff" || r.Outcome == "addrleak" || r.Outcome == "pipediff" {
 		obs["msg"] = r.Msg
 	}
 	if r.Outcome == "panic" {
@@ -611,6 +611,20 @@ func runRender(c J) J {
 	res := doRender(rs, jstr(c, "entry"))
 	if rs.setupErr != nil {
 		res = errResult("parse", rs.setupErr, rs.root)
+	}
+	// a second program that must render exactly as the first (a pipeline and its steps taken one at a time)
+	if p2 := jarr(c, "prog2"); len(p2) > 0 {
+		c2 := cloneCase(c)
+		c2["prog"] = p2
+		delete(c2, "prog2")
+		delete(c2, "finalenv")
+		if rs2, err := prepareRender(c2); err == nil {
+			res2 := doRender(rs2, jstr(c, "entry"))
+			rs2.cleanup()
+			if res2.Outcome != res.Outcome || !bytes.Equal(res2.Out, res.Out) {
+				res = result{Outcome: "pipediff", Out: res.Out, Msg: fmt.Sprintf("%q renders %s %q, but %q renders %s %q", rs.src, res.Outcome, truncate(string(res.Out), 80), rs2.src, res2.Outcome, truncate(string(res2.Out), 80))}
+			}
+		}
 	}
 	if !jbool(c, "weird") && !jbool(c, "testenv") {
 		// (bindings built from the value universe of the specification: Go structs with pointer fields, which the
